@@ -84,7 +84,17 @@ EDITS = ["none", "del_atoms", "del_backbone", "del_residues", "del_termini", "ch
 PI32 = float(np.float32(np.pi))
 
 
+# thorough tier: every 30-th case also runs in a worker whose extensions are ASan/UBSan-instrumented (vlib/sanitize.py)
+ASAN_EVERY = {"quick": 0, "thorough": 30}
+GROUPS = {"thorough": [dict(name="asan", flavour="asan", workers=2)]}
+
+
 def gen_cases(tier, seed):
+    from vlib.gen import common as _common
+    return _common.with_asan_slice(_gen_cases(tier, seed), ASAN_EVERY[tier])
+
+
+def _gen_cases(tier, seed):
     n = NCASES[tier]
     files = FILES_QUICK if tier == "quick" else FILES_THOROUGH
     cells = common.CELL_KINDS
@@ -103,7 +113,7 @@ def gen_cases(tier, seed):
                      spread=int(rng.choice([0, 1, 1, 3, 10, 50] + ([200] if wide else []))), perframe=bool(rng.random() < 0.3),
                      mixed=bool(rng.random() < 0.15),
                      # mostly few frames; every 12th value case is a long trajectory (kernels may block / chunk the frame loop)
-                     n_frames=(int(rng.choice([129, 200, 257, 300])) if (i // len(KINDS)) % 12 == 5 else int(rng.integers(1, 9 if wide else 5))),
+                     n_frames=(int(rng.choice([129, 200, 257, 300])) if (i // len(KINDS)) % (30 if not wide else 12) == 5 else int(rng.integers(1, 9 if wide else 5))),
                      n_atoms=int(rng.integers(4, 65 if wide else 33)), idx=int(rng.integers(0, 4)), wide=wide)
         yield c
 
